@@ -27,6 +27,52 @@ enum FTy {
     UnionAB,
     /// `A[a: 'int, b: 'bin] | C[b: 'bin, a: 'int]` (prefix variable): `.a` at different positions
     UnionPerm,
+    /// the result of a block (a union the generator does not track): only read whole
+    Opaque,
+}
+
+#[derive(Clone, Debug)]
+enum Pat {
+    Bind(String),
+    Wild,
+    Int(i64),
+    Bin(Vec<u8>),
+    Tup(Option<String>, Vec<(Option<String>, Pat)>),
+    TyInt,
+    TyBin,
+}
+
+impl Pat {
+    fn src(&self) -> String {
+        match self {
+            Pat::Bind(x) => x.clone(),
+            Pat::Wild => "_".into(),
+            Pat::Int(z) => z.to_string(),
+            Pat::Bin(b) => format!("0x{}", qverif::hex(b)),
+            Pat::Tup(n, fs) => {
+                let inner: Vec<String> =
+                    fs.iter().map(|(l, p)| match l { Some(l) => format!("{l}: {}", p.src()), None => p.src() }).collect();
+                format!("{}[{}]", n.clone().unwrap_or_default(), inner.join(", "))
+            }
+            Pat::TyInt => "'int".into(),
+            Pat::TyBin => "'bin".into(),
+        }
+    }
+    fn sx(&self) -> String {
+        match self {
+            Pat::Bind(x) => format!("(pb {x})"),
+            Pat::Wild => "(pw)".into(),
+            Pat::Int(z) => format!("(pi {z})"),
+            Pat::Bin(b) => if b.is_empty() { "(pbin)".into() } else { format!("(pbin {})", qverif::hex(b)) },
+            Pat::Tup(n, fs) => {
+                let inner: String =
+                    fs.iter().map(|(l, p)| format!(" ({} {})", l.clone().unwrap_or("_".into()), p.sx())).collect();
+                format!("(pt {}{})", n.clone().unwrap_or("_".into()), inner)
+            }
+            Pat::TyInt => "(pty int)".into(),
+            Pat::TyBin => "(pty bin)".into(),
+        }
+    }
 }
 
 #[derive(Clone, Debug)]
@@ -44,6 +90,10 @@ enum Term {
     Ripple(Vec<Acc>),
     Builtin(&'static str),
     Bind(String),
+    /// `=P` (a pattern that may fail: only as the last term of a condition chain)
+    Match(Pat),
+    /// `{ | cond => cons | cond }`
+    Block(Vec<(Vec<Chain>, Option<Vec<Chain>>)>),
 }
 
 #[derive(Clone, Debug)]
@@ -75,6 +125,20 @@ impl Term {
             Term::Ripple(a) => format!("~{}", acc_src(a)),
             Term::Builtin(b) => format!("__{b}__"),
             Term::Bind(x) => format!("={x}"),
+            Term::Match(p) => format!("={}", p.src()),
+            Term::Block(brs) => {
+                let mut s = String::from("{");
+                for (cond, cons) in brs {
+                    let c: Vec<String> = cond.iter().map(|c| c.src()).collect();
+                    s.push_str(&format!(" | {}", c.join(", ")));
+                    if let Some(k) = cons {
+                        let k: Vec<String> = k.iter().map(|c| c.src()).collect();
+                        s.push_str(&format!(" => {}", k.join(", ")));
+                    }
+                }
+                s.push_str(" }");
+                s
+            }
         }
     }
     fn sx(&self) -> String {
@@ -92,6 +156,21 @@ impl Term {
             Term::Ripple(a) => format!("(~{})", acc_sx(a)),
             Term::Builtin(b) => format!("(bi {b})"),
             Term::Bind(x) => format!("(m (pb {x}))"),
+            Term::Match(p) => format!("(m {})", p.sx()),
+            Term::Block(brs) => {
+                let mut s = String::from("(blk");
+                for (cond, cons) in brs {
+                    let c: Vec<String> = cond.iter().map(|c| c.sx()).collect();
+                    s.push_str(&format!(" (br (s {})", c.join(" ")));
+                    if let Some(k) = cons {
+                        let k: Vec<String> = k.iter().map(|c| c.sx()).collect();
+                        s.push_str(&format!(" (s {})", k.join(" ")));
+                    }
+                    s.push(')');
+                }
+                s.push(')');
+                s
+            }
         }
     }
 }
@@ -167,12 +246,119 @@ impl FG<'_> {
         }
         out
     }
+    /// the variants of a scrutinee type the generator can dispatch on
+    fn variants(t: &FTy) -> Vec<FTy> {
+        let a = FTy::Tup(Some("A".into()), vec![(Some("a".into()), FTy::Int), (Some("b".into()), FTy::Bin)]);
+        match t {
+            FTy::IntOrNil => vec![FTy::Int, FTy::Tup(None, vec![])],
+            FTy::UnionAB => vec![a, FTy::Tup(Some("B".into()), vec![(Some("a".into()), FTy::Int), (Some("c".into()), FTy::Int)])],
+            FTy::UnionPerm => vec![a, FTy::Tup(Some("C".into()), vec![(Some("b".into()), FTy::Bin), (Some("a".into()), FTy::Int)])],
+            FTy::Opaque | FTy::Ok => vec![],
+            t => vec![t.clone()],
+        }
+    }
+    /// a pattern for a value of type `t` (depth-limited); new binders go to `binds`
+    fn pat(&mut self, t: &FTy, depth: usize, binds: &mut Vec<(String, FTy)>) -> Pat {
+        match self.r.below(10) {
+            0 => Pat::Wild,
+            1..=2 => {
+                let x = self.var_name();
+                binds.push((x.clone(), t.clone()));
+                Pat::Bind(x)
+            }
+            _ => match t {
+                FTy::Int => match self.r.below(3) {
+                    0 => { self.feat("pat:literal"); Pat::Int(self.r.below(3) as i64) }
+                    _ => { self.feat("pat:type-test"); Pat::TyInt }
+                },
+                FTy::Bin => match self.r.below(3) {
+                    0 => { self.feat("pat:literal"); Pat::Bin(vec![1]) }
+                    _ => { self.feat("pat:type-test"); Pat::TyBin }
+                },
+                FTy::Tup(n, fs) => {
+                    self.feat("pat:tuple");
+                    let mut out = vec![];
+                    for (l, ft) in fs {
+                        let sub = if depth == 0 || self.r.chance(1, 2) {
+                            if self.r.chance(1, 2) { Pat::Wild } else {
+                                let x = self.var_name();
+                                binds.push((x.clone(), ft.clone()));
+                                Pat::Bind(x)
+                            }
+                        } else {
+                            self.feat("pat:nested");
+                            self.pat(ft, depth - 1, binds)
+                        };
+                        out.push((l.clone(), sub));
+                    }
+                    Pat::Tup(n.clone(), out)
+                }
+                _ => Pat::Wild,
+            },
+        }
+    }
+    /// `{ | =P => cons | … }` dispatching on a value of type `scrut`
+    fn block(&mut self, scrut: &FTy, depth: usize) -> Term {
+        self.feat("term:block");
+        let vs = Self::variants(scrut);
+        let nbr = 1 + self.r.usize(3);
+        let mut brs = vec![];
+        let saved = self.vars.clone();
+        for k in 0..nbr {
+            let last = k + 1 == nbr;
+            let mut binds = vec![];
+            // gate (finding F25): no bare binder / wildcard branch on a nil-able scrutinee
+            let nilable = matches!(scrut, FTy::IntOrNil);
+            let p = if vs.is_empty() || (last && !nilable && self.r.chance(1, 3)) {
+                if self.r.chance(1, 2) && !nilable { let x = self.var_name(); binds.push((x.clone(), scrut.clone())); Pat::Bind(x) } else if !nilable { Pat::Wild } else { Pat::TyInt }
+            } else {
+                let v = vs[self.r.usize(vs.len())].clone();
+                let mut p = self.pat(&v, 1, &mut binds);
+                if nilable && matches!(p, Pat::Wild | Pat::Bind(_)) {
+                    binds.clear();
+                    p = if v == FTy::Int { Pat::TyInt } else { Pat::Tup(None, vec![]) };
+                }
+                p
+            };
+            self.vars = saved.clone();
+            self.vars.extend(binds.clone());
+            let cond = vec![Chain { bind: None, terms: vec![Term::Match(p)] }];
+            let cons = if self.r.chance(4, 5) {
+                self.feat("branch:consequence");
+                // the consequence starts from the block parameter again (not read: its narrowed
+                // type is the model's business, the generator only uses the binders)
+                let want = if self.r.chance(2, 3) { Some(FTy::Int) } else { None };
+                let (c, _) = self.chain(want.as_ref(), &FTy::Opaque, depth);
+                Some(vec![c])
+            } else {
+                None
+            };
+            brs.push((cond, cons));
+        }
+        self.vars = saved;
+        Term::Block(brs)
+    }
     /// a chain of type `want` (any type when `None`); `flow` = the type of the flowing value
     fn chain(&mut self, want: Option<&FTy>, flow: &FTy, depth: usize) -> (Chain, FTy) {
         let (terms, t) = self.terms(want, flow, depth);
         (Chain { bind: None, terms }, t)
     }
     fn terms(&mut self, want: Option<&FTy>, flow: &FTy, depth: usize) -> (Vec<Term>, FTy) {
+        if want.is_none() && depth > 0 && self.r.chance(1, 4) {
+            // a scrutinee (a variable read whole, or a fresh simple value) piped into a block
+            let cands: Vec<(String, FTy)> =
+                self.vars.iter().filter(|(_, t)| !matches!(t, FTy::Opaque | FTy::Ok)).cloned().collect();
+            let (first, st) = if !cands.is_empty() && self.r.chance(3, 4) {
+                let (x, t) = cands[self.r.usize(cands.len())].clone();
+                (vec![Term::Var(x, vec![])], t)
+            } else {
+                self.terms(Some(&FTy::Int), flow, 0)
+            };
+            let b = self.block(&st, depth - 1);
+            let mut t = first;
+            t.push(b);
+            return (t, FTy::Opaque);
+        }
         for _ in 0..8 {
             let k = self.r.below(12);
             match k {
